@@ -3,7 +3,8 @@ From ASModel Require Import Base.
 
 (** ** User programs (what the harness threads execute through the public API) *)
 Inductive src := SNull | SHandle (h : N).
-Inductive rcu_mode := RcuNew | RcuNull | RcuSame.
+Inductive rcu_mode := RcuNew | RcuNull | RcuSame
+| RcuPanicAt (k : N).   (* the closure allocates a new value on attempts < k and panics on attempt k *)
 
 Inductive cmd :=
 | CNew (h : N)                              (* allocate a fresh object, owned handle h *)
@@ -83,6 +84,7 @@ Inductive pc :=
 | WRcuCas (c : N) (m : rcu_mode) (p : N) (d : option slot)
 | WRcuInto (p : N) (d : option slot)
 | WRcuRet (q : N)
+| WRcuPanic                         (* the closure panicked: `cur` was dropped by the unwind *)
 | WRcuNext (c : N) (m : rcu_mode) (q : N) (dq : option slot)
 | WInto (p : N)                     (* container into_inner waits for pay_all *)
 | WDropStore (p : N)
